@@ -264,11 +264,17 @@ def nat_dump_stats(h):
         try:
             opts = dict(format=fmt, add_filehash_to_path=hashpath, pretty_descriptor=pretty, counters=counters)
 
+            # an encoding declared upstream (load(encoding=..) / update_resource(encoding=..)): whatever the dumper does with it, size
+            # and hash describe the bytes of the file it wrote
+            enc = h.rng.choice([None, None, 'latin-1', 'cp1252', 'utf-8'])
+            from dataflows import update_resource as _ur
+            pre = [_ur(None, encoding=enc)] if enc else []
+
             def run(where):
                 dumper = dump_to_zip(where + '.zip', **opts) if zipped else dump_to_path(where, **opts)
-                return Flow(*[[dict(r) for r in rs] for rs in data], dumper).process()
+                return Flow(*[[dict(r) for r in rs] for rs in data], *pre, dumper).process()
             got = h.run(lambda: run(os.path.join(d, 'a')))
-            cfg = (fmt, zipped, hashpath, pretty, ckind, data)
+            cfg = (fmt, zipped, hashpath, pretty, ckind, enc, data)
             if not h.check(got[0] == 'ok', 'dump', cfg, 'dump succeeds', got[:2]):
                 continue
             dp, stats = got[1]
